@@ -268,8 +268,45 @@ def run_lin(c):
     return None
 
 
+def run_singular(c):
+    """observers at points where ONE source of the list has no finite field (Dipole position, Triangle / Tetrahedron vertex):
+    the sum over sources is then not finite either - sumup and collections must not hide it"""
+    import magpylib as magpy
+
+    dip = magpy.misc.Dipole(moment=(0.3, -0.2, 0.7), position=(0.4, 0.1, -0.2))
+    tri = magpy.misc.Triangle(vertices=[(0, 0, 0), (1, 0, 0), (0, 1, 0)], polarization=(0.2, -0.3, 0.9), position=(2, 0, 0))
+    tet = magpy.magnet.Tetrahedron(vertices=[(0, 0, 0), (1, 0, 0), (0, 1, 0), (0, 0, 1)], polarization=(0.2, -0.3, 0.9), position=(-2, 1, 0))
+    cub = magpy.magnet.Cuboid(dimension=(0.5, 0.4, 0.3), polarization=(0.1, 0.2, -0.3), position=(0, 2, 1))
+    srcs = {"dip": dip, "tri": tri, "tet": tet, "cub": cub}
+    lst = [srcs[k] for k in c["order"]]
+    obs = np.array([(0.4, 0.1, -0.2), (2.0, 0.0, 0.0), (3.0, 0.0, 0.0), (-2.0, 1.0, 0.0), (0.7, 0.6, 0.5)])
+    fn = getattr(magpy, "get" + c["field"])
+    with np.errstate(all="ignore"):
+        per = np.asarray(fn(lst, obs, squeeze=False))
+        want = per.sum(axis=0, keepdims=True)
+        if c["form"] == "sumup":
+            got = np.asarray(fn(lst, obs, squeeze=False, sumup=True))
+        elif c["form"] == "sens_sumup":
+            got = np.asarray(getattr(magpy.Sensor(pixel=obs), "get" + c["field"])(*lst, squeeze=False, sumup=True))
+            want = want.reshape(got.shape)
+        else:
+            got = np.asarray(fn(magpy.Collection(*[s.copy() for s in lst]), obs, squeeze=False))
+    if got.shape != want.shape:
+        return f"shape {got.shape} != {want.shape}"
+    fin_w, fin_g = np.isfinite(want), np.isfinite(got)
+    if not np.array_equal(fin_w, fin_g):
+        k = np.argwhere(fin_w != fin_g)[0]
+        return f"non-finite entries of the summed field hidden or invented at observer {int(k[3])}: sum of sources {want[tuple(k)]}, returned {got[tuple(k)]}"
+    sc = np.max(np.abs(want[fin_w])) if fin_w.any() else 1.0
+    if fin_w.any() and np.max(np.abs(got[fin_w] - want[fin_w])) > RTOL * sc:
+        return "finite entries differ from the sum of sources"
+    return None
+
+
 def work(c):
     try:
+        if c["part"] == "sing":
+            return run_singular(c)
         return run_arr(c) if c["part"] == "arr" else run_lin(c)
     except Exception as e:
         import traceback
@@ -297,6 +334,10 @@ def enumerate_cases(tier):
             for sumup in (False, True):
                 cases.append({"part": "arr", "kinds": list(kinds), "plens": [1] * len(kinds), "obs": "p3", "sumup": sumup,
                               "field": "B", "history": list(hist)})
+    for order in itertools.permutations(["dip", "tri", "tet", "cub"]):
+        for form in ("sumup", "sens_sumup", "collection"):
+            for field in ("B", "H"):
+                cases.append({"part": "sing", "order": list(order), "form": form, "field": field})
     for cls in lin_sources():
         for field in ("B", "H"):
             for i in range(len(VECS)):
@@ -309,6 +350,8 @@ def enumerate_cases(tier):
 
 
 def vkey(c, r):
+    if c["part"] == "sing":
+        return f"C05|singular-observer|{c['form']}|{c['field']}|{r.split(' ')[0]}"
     if c["part"] == "lin":
         return f"C05|linearity|{c['cls']}|{c['field']}|{c['kind']}" + (f"|alpha={c['alpha']}" if c["kind"] == "scale" else "")
     ncoll = sum(1 for k in c["kinds"] if k != "S" and k != "D")
@@ -328,7 +371,7 @@ def run(tier, seed):
             continue
         viols.append({"key": vkey(c, r), "what": f"{c}: {r}", "case": c, "observed": r})
     narr = sum(1 for c in cases if c["part"] == "arr")
-    nontriv = sum(1 for c in cases if c["part"] == "lin" or len(c["kinds"]) > 1 or c["kinds"][0] != "S")
+    nontriv = sum(1 for c in cases if c["part"] in ("lin", "sing") or len(c["kinds"]) > 1 or c["kinds"][0] != "S")
     cov = {
         "evaluations": len(cases), "distinct_nontrivial": nontriv,
         "rule": "arrangement cases are all ordered item lists (distinct by construction) compared with sums of single-leaf "
